@@ -332,7 +332,8 @@ class ClsInterp:
         if o == 'frombad':
             neg = t.get('neg', False)
             cls = CL.AnyButFrom if neg else CL.AnyFrom
-            vals = {'bs2': ['\\a'], 'bs2b': ['a', '\\-'], 'bs3': ['\\\\a'], 'str2': ['a', 'bc'], 'empty': ['a', ''], 'int': ['a', 5], 'none': [None], 'noargs': [], 'list': [['a']],
+            import pregex.core.assertions as _AS
+            vals = {'clsdigit': [CL.AnyDigit()], 'clsany': ['a', CL.Any()], 'wb': [_AS.WordBoundary()], 'clsws': [CL.AnyWhitespace(), 'b'], 'bs2': ['\\a'], 'bs2b': ['a', '\\-'], 'bs3': ['\\\\a'], 'str2': ['a', 'bc'], 'empty': ['a', ''], 'int': ['a', 5], 'none': [None], 'noargs': [], 'list': [['a']],
                     'pre2': ['a', Pregex('ab')], 'bytes': [b'a'], 'float': [1.5]}[t['v']]
             exc = S.T_ARGS if t['v'] == 'noargs' else S.T_TYPE
 
@@ -352,7 +353,8 @@ class ClsInterp:
         if o == 'btwbad':
             neg = t.get('neg', False)
             cls = CL.AnyButBetween if neg else CL.AnyBetween
-            a, b = {'bs2': ('\\a', 'z'), 'bs2b': ('!', '\\z'), 'str2': ('ab', 'z'), 'int': (1, 9), 'none': (None, 'z'), 'empty': ('', 'z'), 'pre2': ('a', Pregex('xy')),
+            import pregex.core.assertions as _AS
+            a, b = {'clsdigit': (CL.AnyDigit(), '~'), 'clsany': ('!', CL.Any()), 'wb': (_AS.WordBoundary(), 'z'), 'bs2': ('\\a', 'z'), 'bs2b': ('!', '\\z'), 'str2': ('ab', 'z'), 'int': (1, 9), 'none': (None, 'z'), 'empty': ('', 'z'), 'pre2': ('a', Pregex('xy')),
                     'list': (['a'], 'z'), 'float': ('a', 2.5)}[t['v']]
 
             def model():
@@ -445,10 +447,10 @@ def w6(tier, seed):
         for b in ['a', '~', '\x00', {'t': 'Dollar'}, {'t': 'Backslash'}, {'t': 'Yen'}]:
             out.append({'o': 'btw', 'a': {'t': a}, 'b': b})
             out.append({'o': 'btw', 'a': b, 'b': {'t': a}, 'neg': True})
-    for v in ('bs2', 'bs2b', 'bs3', 'str2', 'empty', 'int', 'none', 'noargs', 'list', 'pre2', 'bytes', 'float'):
+    for v in ('clsdigit', 'clsany', 'wb', 'clsws', 'bs2', 'bs2b', 'bs3', 'str2', 'empty', 'int', 'none', 'noargs', 'list', 'pre2', 'bytes', 'float'):
         out.append({'o': 'frombad', 'v': v})
         out.append({'o': 'frombad', 'v': v, 'neg': True})
-    for v in ('bs2', 'bs2b', 'str2', 'int', 'none', 'empty', 'pre2', 'list', 'float'):
+    for v in ('clsdigit', 'clsany', 'wb', 'bs2', 'bs2b', 'str2', 'int', 'none', 'empty', 'pre2', 'list', 'float'):
         out.append({'o': 'btwbad', 'v': v})
         out.append({'o': 'btwbad', 'v': v, 'neg': True})
     # sampled 3/4/6-subsets, token instances mixed in
